@@ -1,7 +1,7 @@
 (* Props/C05.v — property C05 (XMI half): loading depends on what a document says, not on how it is laid out.
    Only the property theorems (closed by `exact`), Print Assumptions and non-vacuity examples.
    parse_flt (float(str)) is universally quantified in every statement. *)
-From Cassis Require Import Base Heap Schema Canon Lex XmiDoc XmiLoad XmiLoadProofs.
+From Cassis Require Import Base Heap Schema Canon Lex XmiDoc XmiLoad XmiLoadProofs XmiLoadProofs2.
 Open Scope Z_scope.
 
 (* The declarative meaning of a closed document (ids distinct, references resolvable) whose elements carry no attribute
@@ -14,13 +14,13 @@ Theorem C05_denote_xmi_presentation_invariant : forall parse_flt s d d',
 Proof. exact denote_xmi_presentation_invariant. Qed.
 Print Assumptions C05_denote_xmi_presentation_invariant.
 
-(* load_xmi_is_denotation, per feature kind.  For an element of an ordinary (non-array) type and every declared feature
+(* The per-feature-kind core of load_xmi_is_denotation.  For an element of an ordinary (non-array) type and every declared feature
    other than the sofa reference of an annotation: the value the reader's first pass leaves in the slot (raw attribute,
    int() of begin/end, wrapped child elements), post-processed by the branch chain of the second pass with references
    resolved through the id-keyed dict, reads back as exactly what the denotation decodes from the element for that
    feature - for primitive, string-collection, token-collection, byte-array, id-collection and reference features alike.
    deref_ok is the global fact: a pointer taken from the dict for id i reads back as i (null for cas:NULL). *)
-Theorem C05_load_xmi_is_denotation_partial_feature : forall parse_flt s sofas fss views objs e ti o fd v1 c,
+Theorem C05_reader_feature_is_denotation : forall parse_flt s sofas fss views objs e ti o fd v1 c,
   sch_find s (reader_tname (x_ns e) (x_tag e)) = Some ti -> ti_okb s ti = true -> elem_okb s e = true ->
   is_array_name (ti_name ti) = false -> In fd (ti_feats ti) ->
   String.eqb (fd_name fd) "sofa" && memb T_ANNOTATION_BASE (ti_anc ti) = false ->
@@ -30,11 +30,11 @@ Theorem C05_load_xmi_is_denotation_partial_feature : forall parse_flt s sofas fs
   dec_feature parse_flt s (fun z => z) false e fd = Ok c ->
   cv views objs v1 = Ok c.
 Proof. exact reader_feature_is_denotation. Qed.
-Print Assumptions C05_load_xmi_is_denotation_partial_feature.
+Print Assumptions C05_reader_feature_is_denotation.
 
 (* the same for an array stored as an element of its own (StringArray with child elements or the empty attribute,
    primitive arrays as tokens, ByteArray as hex digits, FSArray as ids with 0 for null) *)
-Theorem C05_load_xmi_is_denotation_partial_array : forall parse_flt s sofas fss views objs e ti o fd k v1 c,
+Theorem C05_reader_array_is_denotation : forall parse_flt s sofas fss views objs e ti o fd k v1 c,
   sch_find s (reader_tname (x_ns e) (x_tag e)) = Some ti -> ti_okb s ti = true -> elem_okb s e = true ->
   is_primitive s T_TOP = false ->
   is_array_name (ti_name ti) = true -> coll_kind (ti_name ti) = Some k -> ti_feats ti = [fd] ->
@@ -44,4 +44,76 @@ Theorem C05_load_xmi_is_denotation_partial_array : forall parse_flt s sofas fss 
   dec_coll parse_flt k e "elements" = Ok c ->
   cv views objs v1 = Ok (match c with Some l => CColl "" l | None => CNull end).
 Proof. exact reader_elements_is_denotation. Qed.
-Print Assumptions C05_load_xmi_is_denotation_partial_array.
+Print Assumptions C05_reader_array_is_denotation.
+
+(* The reader computes the denotation.  For every document that is closed (doc_ok_xmi), has the _InitialView sofa and
+   distinct view names, whose elements are well-formed XML elements of defined types named by the UIMA rule (elem_okb,
+   names_okb), whose annotations are members of the view of their own sofa only (members_okb), over a schema that answers
+   like a TypeSystem (schema_okb, sofa_feat_okb) - reader_okb is the conjunction, a boolean counted per generated case -
+   and that the strict reader loads: the canonical content of the loaded CAS (every object of the id-keyed dict read back
+   through its pointers, views with sorted member ids) IS the declarative denotation of the document: same sofas and
+   views, same feature structures under the same ids, same values, offsets converted with the table of the own sofa,
+   references as ids, null for cas:NULL. *)
+Theorem C05_load_xmi_is_denotation : forall parse_flt s d c,
+  reader_okb parse_flt s d = true -> load_xmi parse_flt s false d = Ok c ->
+  canon_loaded s c = denote_xmi parse_flt s d.
+Proof. exact load_xmi_is_denotation. Qed.
+Print Assumptions C05_load_xmi_is_denotation.
+(* C05_load_xmi_is_denotation_partial: the statement above is restricted to documents WITH an _InitialView sofa
+   (sofas_okb).  Full statement, not proved:
+     forall parse_flt s d c, reader_okb' parse_flt s d = true -> load_xmi parse_flt s false d = Ok c ->
+       canon_loaded s c = res_map with_initial (denote_xmi parse_flt s d)
+   where reader_okb' drops the _InitialView requirement and with_initial (XmiLoad.v) adds the pre-created initial view
+   with the next free xmi:id and sofaNum (941f890).  It is evaluated on every generated case (CorrC05.check_case compares
+   the observation with with_initial (denote_xmi ...)), including hand-written documents without that sofa. *)
+
+(* Corollary: the content the reader produces does not depend on the presentation. *)
+Theorem C05_load_order_independent : forall parse_flt s d d' c c',
+  reader_okb parse_flt s d = true -> reader_okb parse_flt s d' = true -> attrs_nodupb d = true -> presentation_equiv d d' ->
+  load_xmi parse_flt s false d = Ok c -> load_xmi parse_flt s false d' = Ok c' -> canon_loaded s c' = canon_loaded s c.
+Proof. exact load_order_independent. Qed.
+Print Assumptions C05_load_order_independent.
+
+(* non-vacuity: cassis' own output for a two-view CAS (astral text, forward references because the elements are listed in
+   reverse, a string array with an empty element as child elements, an inline FSArray with a null element, a shared
+   IntegerArray, the reserved feature name self, a no-namespace type, the literal Infinity) satisfies every premise, is
+   loaded by the model, and the UTF-16 offsets 3..5 of structure 7 are the code point offsets 2..4 *)
+Definition ex_schema : schema :=
+ [mkTi "Holder"%string ["Holder"%string; "uima.cas.TOP"%string] [mkFd "items"%string "items"%string "uima.cas.FSArray"%string None false; mkFd "shared"%string "shared"%string "uima.cas.IntegerArray"%string None true];
+  mkTi "ex.Tok"%string ["ex.Tok"%string; "uima.tcas.Annotation"%string; "uima.cas.AnnotationBase"%string; "uima.cas.TOP"%string] [mkFd "next"%string "next"%string "ex.Tok"%string None false; mkFd "tags"%string "tags"%string "uima.cas.StringArray"%string None false; mkFd "w"%string "w"%string "uima.cas.Double"%string None false; mkFd "self_"%string "self"%string "uima.cas.String"%string None false; mkFd "begin"%string "begin"%string "uima.cas.Integer"%string None false; mkFd "end"%string "end"%string "uima.cas.Integer"%string None false; mkFd "sofa"%string "sofa"%string "uima.cas.Sofa"%string None false];
+  mkTi "uima.cas.AnnotationBase"%string ["uima.cas.AnnotationBase"%string; "uima.cas.TOP"%string] [mkFd "sofa"%string "sofa"%string "uima.cas.Sofa"%string None false];
+  mkTi "uima.cas.ArrayBase"%string ["uima.cas.ArrayBase"%string; "uima.cas.TOP"%string] [mkFd "elements"%string "elements"%string "uima.cas.TOP"%string None true];
+  mkTi "uima.cas.ByteArray"%string ["uima.cas.ByteArray"%string; "uima.cas.ArrayBase"%string; "uima.cas.TOP"%string] [mkFd "elements"%string "elements"%string "uima.cas.TOP"%string None true];
+  mkTi "uima.cas.Double"%string ["uima.cas.Double"%string; "uima.cas.TOP"%string] [];
+  mkTi "uima.cas.FSArray"%string ["uima.cas.FSArray"%string; "uima.cas.ArrayBase"%string; "uima.cas.TOP"%string] [mkFd "elements"%string "elements"%string "uima.cas.TOP"%string None true];
+  mkTi "uima.cas.Integer"%string ["uima.cas.Integer"%string; "uima.cas.TOP"%string] [];
+  mkTi "uima.cas.IntegerArray"%string ["uima.cas.IntegerArray"%string; "uima.cas.ArrayBase"%string; "uima.cas.TOP"%string] [mkFd "elements"%string "elements"%string "uima.cas.TOP"%string None true];
+  mkTi "uima.cas.NULL"%string ["uima.cas.NULL"%string; "uima.cas.TOP"%string] [];
+  mkTi "uima.cas.Sofa"%string ["uima.cas.Sofa"%string; "uima.cas.TOP"%string] [mkFd "sofaNum"%string "sofaNum"%string "uima.cas.Integer"%string None false; mkFd "sofaID"%string "sofaID"%string "uima.cas.String"%string None false; mkFd "mimeType"%string "mimeType"%string "uima.cas.String"%string None false; mkFd "sofaArray"%string "sofaArray"%string "uima.cas.TOP"%string None true; mkFd "sofaString"%string "sofaString"%string "uima.cas.String"%string None false; mkFd "sofaURI"%string "sofaURI"%string "uima.cas.String"%string None false];
+  mkTi "uima.cas.String"%string ["uima.cas.String"%string; "uima.cas.TOP"%string] [];
+  mkTi "uima.cas.StringArray"%string ["uima.cas.StringArray"%string; "uima.cas.ArrayBase"%string; "uima.cas.TOP"%string] [mkFd "elements"%string "elements"%string "uima.cas.TOP"%string None true];
+  mkTi "uima.cas.TOP"%string ["uima.cas.TOP"%string] [];
+  mkTi "uima.tcas.Annotation"%string ["uima.tcas.Annotation"%string; "uima.cas.AnnotationBase"%string; "uima.cas.TOP"%string] [mkFd "begin"%string "begin"%string "uima.cas.Integer"%string None false; mkFd "end"%string "end"%string "uima.cas.Integer"%string None false; mkFd "sofa"%string "sofa"%string "uima.cas.Sofa"%string None false]].
+Definition ex_doc : xdoc :=
+ [mkX "http:///uima/cas.ecore"%string "View"%string [("sofa"%string, "2"%string); ("members"%string, "9 30"%string)] [];
+  mkX "http:///uima/cas.ecore"%string "View"%string [("sofa"%string, "1"%string); ("members"%string, "7 9 12"%string)] [];
+  mkX "http:///uima/cas.ecore"%string "Sofa"%string [("xmi:id"%string, "2"%string); ("sofaNum"%string, "2"%string); ("sofaID"%string, "second"%string); ("sofaString"%string, "xyz"%string)] [];
+  mkX "http:///uima/cas.ecore"%string "Sofa"%string [("xmi:id"%string, "1"%string); ("sofaNum"%string, "1"%string); ("sofaID"%string, "_InitialView"%string); ("mimeType"%string, "text/plain"%string); ("sofaString"%string, (String (Ascii.ascii_of_N 97%N) (String (Ascii.ascii_of_N 240%N) (String (Ascii.ascii_of_N 159%N) (String (Ascii.ascii_of_N 152%N) (String (Ascii.ascii_of_N 128%N) (String (Ascii.ascii_of_N 98%N) (String (Ascii.ascii_of_N 99%N) EmptyString))))))))] [];
+  mkX "http:///ex.ecore"%string "Tok"%string [("xmi:id"%string, "30"%string); ("begin"%string, "1"%string); ("end"%string, "3"%string); ("sofa"%string, "2"%string)] [];
+  mkX "http:///uima/cas.ecore"%string "IntegerArray"%string [("xmi:id"%string, "20"%string); ("elements"%string, "1 -2"%string)] [];
+  mkX "http:///ex.ecore"%string "Tok"%string [("xmi:id"%string, "12"%string); ("next"%string, "7"%string); ("begin"%string, "0"%string); ("end"%string, "3"%string); ("sofa"%string, "1"%string)] [("tags"%string, "x"%string); ("tags"%string, ""%string); ("tags"%string, "y z"%string)];
+  mkX "http:///uima/noNamespace.ecore"%string "Holder"%string [("xmi:id"%string, "9"%string); ("items"%string, "7 0 12"%string); ("shared"%string, "20"%string)] [];
+  mkX "http:///ex.ecore"%string "Tok"%string [("xmi:id"%string, "7"%string); ("w"%string, "Infinity"%string); ("self"%string, "s p"%string); ("begin"%string, "3"%string); ("end"%string, "5"%string); ("sofa"%string, "1"%string)] [];
+  mkX "http:///uima/cas.ecore"%string "NULL"%string [("xmi:id"%string, "0"%string)] []].
+
+Definition alookup_z {V} (k : Z) (l : list (Z * V)) : option V := zlookup k l.
+Definition ex_flt (a : string) : option flt := if String.eqb a "Infinity" then Some "inf" else None.
+Example C05_premises_hold :
+  reader_okb ex_flt ex_schema ex_doc = true /\ attrs_nodupb ex_doc = true /\
+  match load_xmi ex_flt ex_schema false ex_doc with
+  | Ok c => res_map (fun cc => option_map (fun f => (alookup "begin" (cf_feats f), alookup "end" (cf_feats f)))
+                                          (alookup_z 7 (cc_fs cc))) (canon_loaded ex_schema c)
+            = Ok (Some (Some (CInt 2), Some (CInt 4)))
+  | _ => False
+  end.
+Proof. vm_compute. repeat split; reflexivity. Qed.
